@@ -10,6 +10,23 @@ def seq(*families):
     return {"kind": "bin", "engine": "seqmc", "families": list(families)}
 
 
+def net(prop):
+    return {"kind": "bin", "engine": "netmc", "families": [prop]}
+
+
+def tx(name, filt, expect=1, **kw):
+    d = {"kind": "mounted", "name": name, "engine": "txmc", "flavour": "verif", "package": "s2n-quic-transport",
+         "filter": filt, "expect_reports": expect}
+    d.update(kw)
+    return d
+
+
+NET_NOTE = ("netmc: real client + real server on the repository's deterministic executor with a harness-owned network; "
+            "every schedule with <= k deviations (drop / duplicate / delay-past-next-flight, plus corrupt / truncate with real TLS, "
+            "plus blackholes where listed) at every datagram index of every scenario of the families data, live, flow, lifecycle, hs "
+            "(k per scenario is listed in the evidence under x_cases); monitors are pure functions over datagrams, clear-text frames "
+            "(own RFC 9000 frame parser), events and the application log. ")
+
 PROPERTIES = {
     "C16": {
         "title": "Reassembly buffer and range sets behave exactly like their reference models",
@@ -24,5 +41,68 @@ PROPERTIES = {
                       "Trusted: the harness reference models and rustc.",
         "design_ref": "DESIGN.md §3 C16",
         "assumptions": ["small-scope hypothesis over the listed alphabets", "reference models in engines/seqmc/src/c16.rs are correct"],
+    },
+    "C01": {
+        "title": "Stream bytes are delivered exactly once, in order, unaltered",
+        "steps": [net("C01")],
+        "technique": "stateless deviation-bounded exploration of real client+server executions (iterative context bounding over network faults) with a content oracle",
+        "level_text": NET_NOTE + "Oracle DATA: every application read must return exactly the bytes the peer wrote at those offsets (64-bit position-dependent PRF payload), a clean end of stream only after the peer finished and with exactly its length, no data after an error.",
+        "level_note": "Bounds: k<=2 deviations on small null-TLS scenarios, k<=1 elsewhere (quick); transfer sizes 1 B..70 KB, 1-3 streams, MTU 1228/1500, CUBIC/BBR, windows default or 1500/3000. Real I/O paths (GSO, sockets) and sizes beyond 70 KB not covered. Trusted: bach executor, harness network, PRF oracle.",
+        "design_ref": "DESIGN.md §3 C01",
+        "assumptions": ["small-scope hypothesis over deviations/scenarios listed in evidence x_cases", "the testing IO provider behaves like the production event loop"],
+    },
+    "C02": {
+        "title": "Every operation terminates: data gets through or the failure is reported",
+        "steps": [net("C02")],
+        "technique": "deviation-bounded exploration incl. finite and infinite blackholes at every datagram index; executor stall detection as lost-wake-up oracle",
+        "level_text": NET_NOTE + "Oracle LIVE: L1 after any finite fault prefix (incl. 2 s blackholes of either/both directions at every index) every application task completes successfully and every finished stream reaches EOF at the peer; L2 with a blackhole that never ends (every index, every direction) each endpoint reports the connection closed no later than max(idle, 3*PTO, handshake timer)+2 ms after its last timer-restarting event and no task is left parked at the horizon; L3 an executor stall (task parked, no timer armed) is a violation.",
+        "level_note": "'Forever' is a 60-120 s virtual-time horizon; blocking kinds exercised: stream credit, connection credit, stream-count credit (peer and local limits), amplification (real TLS), congestion. PTO bound recomputed from the endpoint's own recovery_metrics events (upper bound => no false alarm).",
+        "design_ref": "DESIGN.md §3 C02",
+        "assumptions": ["virtual-time horizon stands for 'forever'", "fairness of the deterministic executor"],
+    },
+    "C08": {
+        "title": "ACKs name only packets really received; packet numbers always reconstruct",
+        "steps": [net("C08")],
+        "technique": "deviation-bounded exploration with an ACK monitor over clear-text frames (tx ACK ranges vs. rx packet numbers, promptness deadlines)",
+        "level_text": NET_NOTE + "Oracle ACK: every range of every ACK frame an endpoint sends is a subset of the packet numbers it decrypted and processed in that space; packet numbers strictly increase per space; every ack-eliciting 1-RTT packet is covered by an ACK sent within max_ack_delay+1 ms, or within 1 ms when it arrived out of order (below an already received ack-eliciting packet, or above a remembered gap).",
+        "level_note": "Exemptions derived from the record only: closing/closed endpoint; packets at or below the Largest Acknowledged of an own ACK frame that the peer acknowledged (RFC 9000 13.2.4 lets the receiver forget them); windows in which the endpoint itself sent a congestion-controlled packet within one smoothed RTT (its pacer gates all transmissions, 'allowed to send'). Observation (not a finding): s2n-quic paces ACK-only packets too, so after a large RTT sample ACKs can leave later than max_ack_delay.",
+        "design_ref": "DESIGN.md §3 C08",
+        "assumptions": ["small-scope hypothesis", "promptness only judged outside pacing windows"],
+    },
+    "C09": {
+        "title": "Loss detection is sound and in-flight bookkeeping is exact",
+        "steps": [net("C09")],
+        "technique": "deviation-bounded exploration with a loss monitor over the event stream (RFC 9002 6.1 transcription)",
+        "level_text": NET_NOTE + "Oracle LOSS (from packet_sent / ack_range_received / packet_lost / recovery_metrics events): a packet is declared lost only if a later-sent packet was acknowledged and (largest_acked - pn >= 3 or it was sent more than max(9/8*max(srtt, latest_rtt), 1 ms) ago, with the 1 ms clock granularity of s2n-quic's Timestamp::has_elapsed); never twice, never after it was acknowledged, never an unsent number; min_rtt <= latest sample; smoothed_rtt within the sample range.",
+        "level_note": "RTT values are the endpoint's own metrics events (the smaller of the values before/after the ACK that triggered the loss, since the estimator is updated before detection). MTU probes are exempt (own timer). Component-level exhaustive search of recovery::Manager is a separate engine (txmc) when registered.",
+        "design_ref": "DESIGN.md §3 C09",
+        "assumptions": ["small-scope hypothesis", "event stream is faithful (events are emitted by the code under test)"],
+    },
+    "C11": {
+        "title": "No traffic amplification towards unvalidated or unknown peers",
+        "steps": [net("C11")],
+        "technique": "deviation-bounded exploration of handshakes with an amplification monitor over the datagram log",
+        "level_text": NET_NOTE + "Oracle AMP (datagram log only): until the first intact client datagram containing a Handshake packet has been delivered to the server, the server never starts a datagram once bytes sent >= 3 x bytes delivered to it from that address (every datagram counted, corrupted ones included); every client datagram carrying an Initial packet is >= 1200 bytes.",
+        "level_note": "Handshake loss/duplication/reordering/corruption patterns with k<=1 (real TLS) and k<=2 (null TLS), early application close during the handshake included. Stateless-reset / version-negotiation reply sizes (STRAY family) not yet covered in this revision.",
+        "design_ref": "DESIGN.md §3 C11",
+        "assumptions": ["small-scope hypothesis", "test certificate chain size only"],
+    },
+    "C12": {
+        "title": "What an endpoint sends on a stream and at close is self-consistent",
+        "steps": [net("C12")],
+        "technique": "deviation-bounded exploration with a per-stream consistency monitor over all transmitted clear-text frames and close datagrams",
+        "level_text": NET_NOTE + "Oracle TXCONS: per endpoint and stream, overlapping (re)transmissions carry identical bytes; no data at/after an announced final size; the final size never changes and is never below data already sent; no STREAM/STREAM_DATA_BLOCKED after RESET_STREAM; stream ids of each type are handed out in increasing order; after the first CONNECTION_CLOSE only byte-identical copies of that datagram leave, at most one per datagram that arrived.",
+        "level_note": "Application scripts: finish/reset/drop/close placed at every step of a multi-stream transfer, peer STOP_SENDING/RESET/close, x loss/dup/reorder at every index. One known finding (empty open-notify STREAM frame retransmitted after RESET_STREAM) is listed in known_findings.json and reported as KNOWN-FINDING.",
+        "design_ref": "DESIGN.md §3 C12",
+        "assumptions": ["small-scope hypothesis"],
+    },
+    "C13": {
+        "title": "Connection IDs are issued, routed and retired consistently",
+        "steps": [tx("txmc_cid", "verif_txmc_cid", expect=2)],
+        "technique": "explicit-state BFS over the real LocalIdRegistry / PeerIdRegistry / ConnectionIdMapper joined by a bag of in-flight frames",
+        "level_text": "The real issuer (LocalIdRegistry in a real ConnectionIdMapper that also holds a second connection) and the real consumer (PeerIdRegistry) are driven through every operation sequence up to depth 10 (quick) / 13 (thorough) over 13 operations (register with/without expiry, set peer limit, transmit, deliver/lose/ack NEW_CONNECTION_ID and RETIRE_CONNECTION_ID frames as encoded bytes through the real codec, consume id for migration, timer expiry) from 48 setup roots, de-duplicated on the registries' Debug rendering; invariants after every step: unretired ids <= peer limit (RFC 9000 5.1.1 MAY for ids being retired by the same frame), consecutive sequence numbers, pairwise distinct ids and reset tokens, retire_prior_to <= sequence number, routing of every id the peer may still use to the issuing connection, peer retires only issued ids and never the destination id of the carrying packet. A second family feeds adversarial NEW_CONNECTION_ID sequences to the peer registry at every reachable state.",
+        "level_note": "Component level: path::Manager / ApplicationSpace glue is transcribed (sources named in engines/txmc/cid.rs); constant id lifetimes; the issuer is never starved for >= 10 s. Routing clause covers the RFC MUST only (until the issuer has put a Retire Prior To above the id on the wire). Mounted into the crate's unit-test build by hook H1.",
+        "design_ref": "DESIGN.md §3 C13",
+        "assumptions": ["small-scope hypothesis", "transcribed glue matches path::Manager", "constant connection-id lifetimes"],
     },
 }
